@@ -2,7 +2,8 @@
 import json
 import subprocess
 import sys
-from seqcheck import ToolError, run_seq_check, build_harness
+from seqcheck import ToolError, run_seq_check, build_harness, write_evidence
+from conccheck import run_conc_check
 
 F, R = [False], [False, True]
 SEQ = {
@@ -27,10 +28,57 @@ SEQ = {
 }
 
 
+# concurrent part: property -> (monitor flags of ConcProps.Judge, design-level models [(module, tag, cfg text)])
+def sinkconc(n, m, invs):
+    return ('SinkConc', 'sinkconc_%d_%d' % (n, m),
+            'SPECIFICATION Spec\nCONSTANTS NThreads = %d\n MaxCalls = %d\n ArbiterFix = TRUE\nINVARIANTS %s\nCHECK_DEADLOCK FALSE\n' % (n, m, ' '.join(invs)))
+
+
+def subjconc(kind, n, unsub, expect=None):
+    return ('SubjectConc', 'subjconc_%s_%d_%s' % (kind, n, 'u' if unsub else 'n'),
+            'SPECIFICATION Spec\nCONSTANTS Kind = "%s"\n NValues = %d\n WithUnsub = %s\nINVARIANTS NoDup InOrder StableGetsAll LateSuffix BehaviorFirst\nCHECK_DEADLOCK FALSE\n'
+            % (kind, n, 'TRUE' if unsub else 'FALSE'), expect)
+
+
+C19INV = ['AtMostOneTerminal', 'NothingStartedAfterTerminal', 'ExactlyOneAtTheEnd']
+CONC = {
+    # property: (monitor flags of ConcProps.Judge, design-level models quick, thorough)
+    'C19': (['C19'], [sinkconc(2, 2, C19INV)], [sinkconc(2, 2, C19INV), sinkconc(3, 1, C19INV), sinkconc(2, 3, C19INV)]),
+    'C11': (['C11', 'C19'], [sinkconc(2, 2, ['AtMostOneTerminal'])], [sinkconc(3, 1, ['AtMostOneTerminal'])]),
+    'C12': (['C12'], [subjconc('plain', 3, False), subjconc('plain', 3, True), subjconc('replay', 3, False, 'NoDup (KF-C12-replay-latesub-duplicate)'), subjconc('behavior', 3, False, 'NoDup (KF-C12-behavior-latesub-duplicate)')],
+            [subjconc('plain', 4, False), subjconc('plain', 4, True), subjconc('replay', 4, False, 'NoDup (KF-C12-replay-latesub-duplicate)'), subjconc('behavior', 4, True, 'NoDup (KF-C12-behavior-latesub-duplicate)')]),
+    'C05': (['C05'], [sinkconc(2, 2, ['UnsubStops'])], [sinkconc(2, 3, ['UnsubStops']), sinkconc(3, 1, ['UnsubStops'])]),
+}
+
+
 def run(prop, tier, seed):
-    if prop in SEQ:
-        flags, q, t, ref = SEQ[prop]
+    seq = SEQ.get(prop)
+    conc = CONC.get(prop)
+    if seq and not conc:
+        flags, q, t, ref = seq
         return run_seq_check(prop, tier, flags, q if tier == 'quick' else t, seed, ref)
+    if conc and not seq:
+        return run_conc_check(prop, tier, conc[0], seed, '6 ' + prop, models=conc[1] if tier == 'quick' else conc[2])
+    if seq and conc:
+        flags, q, t, ref = seq
+        rc1, ev1, l1, s1 = run_seq_check(prop, tier, flags, q if tier == 'quick' else t, seed, ref, write=False)
+        rc2, ev2, l2, s2 = run_conc_check(prop, tier, conc[0], seed, '6 ' + prop, models=conc[1] if tier == 'quick' else conc[2], write=False, clear_replays=False)
+        ev = ev1
+        c1, c2 = ev1['coverage'], ev2['coverage']
+        c1['states'] += c2['states']
+        c1['transitions'] += c2['transitions']
+        c1['traces_validated_against_impl'] += c2['traces_validated_against_impl']
+        c1['evaluations'] += c2['evaluations']
+        c1['distinct_nontrivial'] += c2['distinct_nontrivial']
+        c1['exhaustive'] = c1['exhaustive'] and c2['exhaustive']
+        c1['concurrent_part'] = {k: c2[k] for k in c2 if k != 'samples'}
+        c1['samples'] += c2['samples'][:1]
+        c1['rule'] += ' || concurrent part: ' + c2['rule']
+        ev['assumptions'] += ev2['assumptions']
+        ev['wall_s'] = round(ev1['wall_s'] + ev2['wall_s'], 1)
+        ev['violations'] = ev1['violations'] + ev2['violations']
+        write_evidence(prop, ev, l1 + l2, s1 + '\n' + s2)
+        return 1 if (rc1 or rc2) else 0
     raise ToolError('no check for ' + prop)
 
 
